@@ -348,7 +348,6 @@ Theorem bproj_spec {A} (d : tensor A) : forall s out core t I,
 Proof.
   intros s out core t I [Hl Hc] Hs HI. unfold broadcast_to, bproj. rewrite !app_length.
   replace (length out + length core - (length s + length core)) with (length out - length s) by lia.
-  rewrite <- (in_range_length _ _ HI) at 2. rewrite (in_range_length _ _ HI).
   apply bcast_lead_get; try assumption. lia.
 Qed.
 
